@@ -60,6 +60,14 @@ func c12args() []any {
 
 const c12msg = "fatal-or-panic message"
 
+// c12msgFor: the message of the case ("msg-eol": it ends with a line break - the panic value is the message as given).
+func c12msgFor(cas c12case) string {
+	if cas.Extra == "msg-eol" {
+		return c12msg + "\n"
+	}
+	return c12msg
+}
+
 type c12entry struct {
 	name    string
 	generic bool // severity given as argument
@@ -323,7 +331,9 @@ func init() {
 			// custom levels that are treated as Panic / Fatal for gating are still "other severities": they never terminate
 			_ = slog.RegisterLevel(slog.Level(60), "c12likepanic", slog.RegWithTreatedAsLevel(slog.PanicLevel))
 			_ = slog.RegisterLevel(slog.Level(61), "c12likefatal", slog.RegWithTreatedAsLevel(slog.FatalLevel), slog.RegWithPrintToErrorDevice(true))
-			for _, lv := range []slog.Level{60, 61, 77} {
+			// ... and so are levels with a negative ordinal, registered or not
+			_ = slog.RegisterLevel(slog.Level(-6), "c12negative")
+			for _, lv := range []slog.Level{60, 61, 77, -5, -6} {
 				fmt.Printf("BEGIN custom level %d\n", int(lv))
 				l.LogAttrs(context.Background(), lv, fmt.Sprintf("custom %d", int(lv)), "k", 1)
 				l.Logit(context.Background(), lv, fmt.Sprintf("custom %d", int(lv)))
@@ -336,14 +346,14 @@ func init() {
 			// earlier calls of the same kind in this process; their panics are recovered, nothing is reported
 			func() {
 				defer func() { _ = recover() }()
-				ent.call(l, slog.Level(cas.Sev), c12msg)
+				ent.call(l, slog.Level(cas.Sev), c12msgFor(cas))
 			}()
 		}
 		if cas.Repeat > 1 {
 			// only the last call's record counts
 			os.Truncate(args[1], 0)
 		}
-		ent.call(l, slog.Level(cas.Sev), c12msg)
+		ent.call(l, slog.Level(cas.Sev), c12msgFor(cas))
 		fmt.Println("RETURNED")
 		os.Exit(0)
 	}
@@ -469,7 +479,7 @@ func c12eval(cas c12case, scratch string) (*Violation, string) {
 		return nil, ""
 	}
 	if sev == slog.PanicLevel {
-		want := fmt.Sprintf("PANIC:%q", c12msg)
+		want := fmt.Sprintf("PANIC:%q", c12msgFor(cas))
 		if exit != 0 || strings.TrimSpace(stdout) != want {
 			return mk("panic-with-message", fmt.Sprintf("expected the call to panic with the message (child prints %s)", want)), ""
 		}
@@ -538,7 +548,7 @@ func c12run(c *Ctx) {
 								if c.Thorough() || n%3 == 0 {
 									// larger / rarer shapes: one Attrs argument with 200 members; a nil context on a logger with
 									// context keys; a second, failing destination
-									variants = append(variants, [3]any{-3, "", ""}, [3]any{2, "nilctx-ctxkeys", ""}, [3]any{2, "failing-writer", ""})
+									variants = append(variants, [3]any{-3, "", ""}, [3]any{2, "nilctx-ctxkeys", ""}, [3]any{2, "failing-writer", ""}, [3]any{2, "msg-eol", ""})
 								}
 								for vi, vr := range variants {
 									cas := c12case{Entry: e.name, Sev: int(sev), NoInt: noint, IntAlw: alw, TestMode: tm, Level: int(L), Format: f, NArgs: vr[0].(int), Extra: vr[1].(string), FlagPath: vr[2].(string)}
